@@ -28,7 +28,10 @@ ATOMIC_CLAUSES = {"rejected_not_atomic"}
 # concretisations: how the abstract parents / names / values map to real elements
 # ------------------------------------------------------------------------------------------------
 class Concrete(object):
-    def __init__(self, kind, version, strict):
+    def __init__(self, kind, version, strict, poison=False):
+        """poison (C05): objects built at the OTHER level than a STRICT parent carry what only TOLERANT lets in (an
+        overridden datatype, same text), so that letting one in shows in validate()"""
+        self.poison = poison and strict
         import_hl7apy()
         from hl7apy.consts import VALIDATION_LEVEL as VL
         self.kind = kind
@@ -75,13 +78,19 @@ class Concrete(object):
             f = Field("PID_1", version=self.version, validation_level=lvl)
             f.value = v
             return f
+        bad = self.poison and l != 1
         if self.kind in ("seg", "zseg"):
-            f = Field(self.cname[n], version=self.version, validation_level=lvl)
+            f = (Field(self.cname[n], datatype="NM", version=self.version, validation_level=lvl) if bad
+                 else Field(self.cname[n], version=self.version, validation_level=lvl))
             if v:
                 f.value = v
             return f
         s = Segment(self.cname[n], version=self.version, validation_level=lvl)
-        if v:
+        if v and bad:
+            f = Field(self.cname[n] + "_1", datatype="FT", version=self.version, validation_level=lvl)
+            f.value = v
+            s.add(f)
+        elif v:
             setattr(s, self.cname[n].lower() + "_1", v)
         return s
 
